@@ -634,7 +634,11 @@ Definition okb (c : case) : bool :=
       (negb (wf_opb o) || op_res_eqb read (Ok o))
       && bytes_eqb oid oid2
       && Bool.eqb (bytes_eqb oid wid) (operation_eqb o w)
-  | COpProto _ _ => true
+  | COpProto _ read =>
+      match read with
+      | Ok o => wf_opb o             (* C16_read_op_is_wf *)
+      | _ => true
+      end
   end.
 
 Definition check_case (c : case) : N :=
@@ -716,6 +720,6 @@ Definition case_ok (c : case) : Prop :=
   | CViewProto _ read => forall v, read = Ok v -> wf_view v
   | COp o w _ read _ oid oid2 wid _ =>
       (wf_op o -> read = Ok o) /\ oid = oid2 /\ (oid = wid <-> o = w)
-  | COpProto _ _ => True
+  | COpProto _ read => forall o, read = Ok o -> wf_op o
   end.
 
